@@ -20,17 +20,38 @@ use crate::verif_models::FoldMap as ModelMap;
 // also lets the oracle check WHICH version of a document survives; `PendingOp` and
 // `DocAddress` mirror the writer's types field for field.
 #[derive(Clone, Copy, Debug, PartialEq, Eq, Default)]
-struct Key(u8);
+struct KeyStr(u8);
+#[derive(Clone, Copy, Debug, PartialEq, Eq, Default)]
+struct Key(KeyStr);
 #[allow(non_camel_case_types)]
 type String = Key;
-// `&str` views of an id are views of the same opaque key (so that a refactoring of the
-// fold that borrows ids with `as_str()` still compiles against the mirrors).
+// `&str` views of an id (as_str(), as_deref(), deref coercion) are views of the same
+// opaque key, so that a refactoring of the fold that borrows ids still compiles
+// against the mirrors.
 #[allow(non_camel_case_types)]
-type str = Key;
+type str = KeyStr;
 impl Key {
   fn as_str(&self) -> &str {
-    self
+    &self.0
   }
+}
+impl std::ops::Deref for Key {
+  type Target = KeyStr;
+  fn deref(&self) -> &KeyStr {
+    &self.0
+  }
+}
+fn key(b: u8) -> Key {
+  Key(KeyStr(b))
+}
+// `vec![..]` inside the sliced statements builds the inline vector model.
+#[allow(unused_macros)]
+macro_rules! vec {
+  ($($x:expr),* $(,)?) => {{
+    let mut s = crate::verif_models::SmallSeq::new();
+    $(s.push($x);)*
+    s
+  }};
 }
 
 #[derive(Clone, Debug)]
@@ -52,18 +73,18 @@ struct DocAddress {
 
 fn id(is_a: bool) -> String {
   if is_a {
-    Key(b'a')
+    key(b'a')
   } else {
-    Key(b'b')
+    key(b'b')
   }
 }
 
 fn seg() -> String {
-  Key(b's')
+  key(b's')
 }
 
 fn seg2() -> String {
-  Key(b't')
+  key(b't')
 }
 
 fn any_op(version: u8) -> (PendingOp, bool, bool) {
@@ -137,6 +158,70 @@ fn c04_commit_fold_last_writer_wins() {
 #[kani::unwind(8)]
 fn c04_commit_fold_two_segments() {
   fold_case(true);
+}
+
+fn id3(which: u8) -> String {
+  match which {
+    0 => key(b'a'),
+    1 => key(b'b'),
+    _ => key(b'c'),
+  }
+}
+
+//@ props: C04
+//@ tier: quick
+//@ funcs: api::writer::IndexWriter::commit (slice: the fold of pending_ops into pending_new / tombstones / live_docs)
+//@ symbolic: a queue of three operations, each an add or a delete (symbolic) of id "a", "b" or "c" (symbolic); all three ids are live before the commit: "a" and "c" in segment "s" (ordinals 1 and 3), "b" in segment "t" (ordinal 1)
+//@ bounds: 3 queued operations, 3 ids, 2 segments
+//@ oracle: every live copy touched by a queued operation is tombstoned exactly once under its own segment (whatever the order in which the batch visits the segments), untouched copies are not; last writer wins for the documents to write
+//@ assumes: as c04_commit_fold_last_writer_wins
+//@ outside: as c04_commit_fold_last_writer_wins
+#[kani::proof]
+#[kani::unwind(8)]
+fn c04_commit_fold_three_ids_two_segments() {
+  let mut adds = [false; 3];
+  let mut ids = [0u8; 3];
+  let mut ops_v: [Option<PendingOp>; 3] = [None, None, None];
+  let mut i = 0;
+  while i < 3 {
+    let add: bool = kani::any();
+    let which: u8 = kani::any();
+    kani::assume(which < 3);
+    adds[i] = add;
+    ids[i] = which;
+    ops_v[i] = Some(if add {
+      PendingOp::Add { doc_id: id3(which), doc: Document { version: i as u8 } }
+    } else {
+      PendingOp::Delete { doc_id: id3(which) }
+    });
+    i += 1;
+  }
+  let ops = [ops_v[0].take().unwrap(), ops_v[1].take().unwrap(), ops_v[2].take().unwrap()];
+  let mut live: ModelMap<String, DocAddress> = ModelMap::new();
+  live.insert(id3(0), DocAddress { segment_id: seg(), doc_id: 1 });
+  live.insert(id3(1), DocAddress { segment_id: seg2(), doc_id: 1 });
+  live.insert(id3(2), DocAddress { segment_id: seg(), doc_id: 3 });
+  let (pending_new, tombstones) = slice_commit_fold(&ops, &mut live);
+  let (ts, tt) = (tombstones.get(&seg()), tombstones.get(&seg2()));
+  let mut w = 0u8;
+  while w < 3 {
+    let touched = ids[0] == w || ids[1] == w || ids[2] == w;
+    let last_add = if ids[2] == w { adds[2] } else if ids[1] == w { adds[1] } else { adds[0] };
+    let got = match w {
+      0 => count_in(ts, 1),
+      1 => count_in(tt, 1),
+      _ => count_in(ts, 3),
+    };
+    assert!(got == touched as usize, "C04: a replaced or deleted live copy is not tombstoned exactly once under its segment (three ids, two segments)");
+    assert!(live.contains_key(&id3(w)) == !touched, "C04: a replaced or deleted live copy stays live (or an untouched one is dropped)");
+    assert!(pending_new.contains_key(&id3(w)) == (touched && last_add), "C04: the set of documents to write does not follow last-writer-wins for an id");
+    w += 1;
+  }
+  kani::cover!(ids[0] == 0 && ids[1] == 1 && ids[2] == 2, "the batch visits segment s, then t, then s again");
+  std::mem::forget(pending_new);
+  std::mem::forget(tombstones);
+  std::mem::forget(live);
+  std::mem::forget(ops);
 }
 
 fn fold_case(two_segments: bool) {
